@@ -34,6 +34,7 @@ RULE += " Added after the seeded rounds: " + 'Additionally a memoised breadth-fi
 RULE += ' Operations may carry metadata watchdog_exempt (a timeout-only exemption); a real cycle that check_deadlock() reports must be handled by watchdog.execute().'
 RULE += ' Round 7: a `decoy` (pbt/props/_decoys.py): a second object of the class, differently configured and put through a misleading script (same prompts / names / ids, opposite verdicts and limits), is built in the same process after the object under test.'
 RULE += " Round 8: `late_strategy` - the watchdog is built with the other victim-selection strategy and the one under test is assigned to its public `deadlock_strategy` attribute."
+RULE += " Round 8 regression: all 432 ways of closing a three-operation cycle (holdings x direction x order of the blocking requests x priorities x strategy) are enumerated in both tiers."
 REQUIRED_LABELS = {"ref-cycle": 0.01}
 EXHAUSTIVE_NOTE = {"quick": "all acquire-only histories of depth 1..4 over 3 ops x 3 non-preemptable resources (9+81+729+6561 = 7380), complete",
                    "thorough": "all acquire-only histories of depth 1..6 over 3 ops x 3 non-preemptable resources (597870), complete"}
@@ -85,6 +86,17 @@ def enumerate_cases(tier):
                                (3, [["r1", True], ["r2", False]], 6 if tier == "thorough" else 4)):
         for first in _alphabet(n_ops, len(res)):
             yield {"kind": "bfs", "ops_n": n_ops, "res": res, "prio": [5, 1, 9], "strategy": "priority", "prefix": [first], "depth": bdepth}
+    # every way three operations can close a cycle of length three (who holds what, direction, order of the blocking requests), under both
+    # victim strategies and three priority patterns: the acquire-only enumeration below reaches six steps in the thorough tier only
+    for perm in itertools.permutations(RES):
+        own = dict(zip(OPS, perm))
+        for direction in (1, -1):
+            want = {o: own[OPS[(k + direction) % 3]] for k, o in enumerate(OPS)}
+            for order in itertools.permutations(OPS):
+                for prio in ([1, 5, 9], [9, 5, 1], [5, 5, 5]):
+                    for strat in ("priority", "oldest"):
+                        yield {"ops_n": 3, "res": [[r, False] for r in RES], "prio": prio, "strategy": strat,
+                               "hist": [["acq", o, own[o]] for o in OPS] + [["acq", o, want[o]] for o in order] + [["watchdog"]]}
     depth = 6 if tier == "thorough" else 4
     alphabet = [["acq", o, r] for o in OPS for r in RES]
     res = [[r, False] for r in RES]
